@@ -182,7 +182,7 @@ theorem makeBackupFor_again (o : Options) (p : Bytes) (s : DState) (hin : s.back
 
 /-! ### the backup is made right before the write — also for deferred (git) writes
 
-    `write_patched_result_to_file` makes the backup itself (the caller only says whether one is due), after `make_writable` and before
+    `write_patched_result_to_file` makes the backup itself (the caller only says whether one is due), before `make_writable` and before
     the file is re-created; for a deferred write the request is recorded (`DeferredWrite.backup`) and `DeferredWriter::finalize` does
     the same steps.  `DriverFacts.writeNow` is that common sequence. -/
 
@@ -380,25 +380,29 @@ theorem finalizeRemoval_again (o : Options) (dWrites : List DeferredWrite) (p : 
   rw [run_bind, run_fsExists, hex]
   rfl
 
-/-- the operations of `pre; writeNow …` where `pre` only creates directories: `pre ++ bk ++ post` with
-    * `pre`: `mkdir`s (of the directories of the target and — after the `chmod` — of the backup name) and the `chmod` that makes a
-      read-only target writable,
+/-- the operations of `pre; writeNow …` where `pre` only creates directories: `pre ++ bk ++ mw ++ post` with
+    * `pre`: `mkdir`s (of the directories of the target and of the backup name),
     * `bk`: the backup — the `rename` of the target to its backup name, or the `creat` of an empty backup —, or nothing,
+    * `mw`: the `chmod` that makes a read-only target (one that is still there) writable, or nothing,
     * `post`: the `creat` of the target, followed by its `write` and the `chmod` of the permission callback;
     **if a backup is due (`sb`, and none was made for this name before), nothing happens to the target before the backup operation
-    has succeeded**; if none is due, none is made; on success the target has been created -/
+    has succeeded** — not even the `chmod` of `make_writable` —; if none is due, none is made; on success the target has been created.
+
+    CHANGED with the model change "the backup is taken before `make_writable`" (D93): the `chmod` of `make_writable` was part of `pre`
+    (`∀ op ∈ pre, (∃ d, op = mkdir d) ∨ ∃ m, op = chmod out m`); it is a block of its own now, between the backup and the `creat`. -/
 theorem writeNow_backup_first {pre : DM Unit} (o : Options) (out : Bytes) (perm : PermResult) (sb : Bool) (content : Bytes) (nm : Nat)
     (hk : ∀ s s1 r, pre.run s = (r, s1) → s1.cwd = s.cwd ∧ s1.backedUp = s.backedUp)
     (ht : TrExt (fun op => ∃ d, op = FsOp.mkdir d) pre)
     (s s' : DState) (r : Except Exn Unit)
     (h : (pre >>= fun _ => writeNow o out perm sb content nm).run s = (r, s')) :
-    ∃ pre bk post, s'.trace = s.trace ++ pre ++ bk ++ post ∧
-      (∀ op ∈ pre, (∃ d, op = FsOp.mkdir d) ∨ ∃ m, op = FsOp.chmod (absPath s out) m) ∧
+    ∃ pre bk mw post, s'.trace = s.trace ++ pre ++ bk ++ mw ++ post ∧
+      (∀ op ∈ pre, ∃ d, op = FsOp.mkdir d) ∧
       (bk = [] ∨ bk = [FsOp.rename (absPath s out) (absPath s (backupName o out))] ∨
         bk = [FsOp.creat (absPath s (backupName o out))]) ∧
+      (mw = [] ∨ ∃ m, mw = [FsOp.chmod (absPath s out) m]) ∧
       (post = [] ∨ ∃ rest, post = FsOp.creat (absPath s out) :: rest ∧
         ∀ op ∈ rest, (∃ b, op = FsOp.write (absPath s out) b) ∨ ∃ m, op = FsOp.chmod (absPath s out) m) ∧
-      (sb = true → s.backedUp.contains (backupName o out) = false → bk = [] → post = []) ∧
+      (sb = true → s.backedUp.contains (backupName o out) = false → bk = [] → mw = [] ∧ post = []) ∧
       (sb = false ∨ s.backedUp.contains (backupName o out) = true → bk = []) ∧
       (r = .ok () → post ≠ []) := by
   rw [run_bind] at h
@@ -406,39 +410,36 @@ theorem writeNow_backup_first {pre : DM Unit} (o : Options) (out : Bytes) (perm 
   · next _ s1 h1 =>
     obtain ⟨c1, b1⟩ := hk _ _ _ h1
     obtain ⟨D, t1, hD⟩ := ht.run h1
-    obtain ⟨-, W, M, B, C, t, hW, hM, hB, hC, hfirst, hnone, hok, -⟩ := writeNow_shape _ _ _ _ _ _ h
+    obtain ⟨-, M, B, W, C, t, hM, hB, hW, hC, hfirst, hnone, hok, -⟩ := writeNow_shape _ _ _ _ _ _ h
     rw [absPath_cwd c1] at hW hC
     rw [absPath_cwd c1, absPath_cwd c1] at hB
     rw [b1] at hfirst hnone
-    refine ⟨D ++ W ++ M, B, C, by rw [t, t1]; simp only [List.append_assoc], ?_, hB, hC, hfirst, fun h => (hnone h).2, hok⟩
+    refine ⟨D ++ M, B, W, C, by rw [t, t1]; simp only [List.append_assoc], ?_, hB, hW, hC, hfirst, fun h => (hnone h).2, hok⟩
     intro op hop
     rcases List.mem_append.1 hop with h | h
-    · rcases List.mem_append.1 h with h | h
-      · exact Or.inl (hD op h)
-      · rcases hW with rfl | ⟨m, rfl⟩
-        · cases h
-        · rw [List.mem_singleton.1 h]; exact Or.inr ⟨m, rfl⟩
+    · exact hD op h
     · obtain ⟨d, _, e⟩ := hM op h
-      exact Or.inl ⟨_, e⟩
+      exact ⟨_, e⟩
   · next e s1 h1 =>
     cases h
     obtain ⟨D, t1, hD⟩ := ht.run h1
-    exact ⟨D, [], [], by rw [t1]; simp, fun op hop => Or.inl (hD op hop), Or.inl rfl, Or.inl rfl, fun _ _ _ => rfl,
-      fun _ => rfl, fun he => (by cases he)⟩
+    exact ⟨D, [], [], [], by rw [t1]; simp, fun op hop => hD op hop, Or.inl rfl, Or.inl rfl, Or.inl rfl,
+      fun _ _ _ => ⟨rfl, rfl⟩, fun _ => rfl, fun he => (by cases he)⟩
 
 /-- **`DeferredWriter::finalize` backs up before it writes**: for a deferred write with `backup = true` whose backup name has not been
-    used yet, the first operation that is neither a `mkdir` nor the `chmod` of `make_writable` is the backup (`rename` of the
-    destination to the backup name, or `creat` of an empty backup); only then is the destination created.  Without a backup request
-    (or when the backup exists already) no backup operation is made. -/
+    used yet, the first operation that is not a `mkdir` is the backup (`rename` of the destination to the backup name, or `creat` of an
+    empty backup); only then is the destination made writable (if it is still there and read-only) and created.  Without a backup
+    request (or when the backup exists already) no backup operation is made.  (CHANGED as `writeNow_backup_first`.) -/
 theorem finalize_backup_first (o : Options) (w : DeferredWrite) (s s' : DState) (r : Except Exn Unit)
     (h : (finalizeWrite o w).run s = (r, s')) :
-    ∃ pre bk post, s'.trace = s.trace ++ pre ++ bk ++ post ∧
-      (∀ op ∈ pre, (∃ d, op = FsOp.mkdir d) ∨ ∃ m, op = FsOp.chmod (absPath s w.dest) m) ∧
+    ∃ pre bk mw post, s'.trace = s.trace ++ pre ++ bk ++ mw ++ post ∧
+      (∀ op ∈ pre, ∃ d, op = FsOp.mkdir d) ∧
       (bk = [] ∨ bk = [FsOp.rename (absPath s w.dest) (absPath s (backupName o w.dest))] ∨
         bk = [FsOp.creat (absPath s (backupName o w.dest))]) ∧
+      (mw = [] ∨ ∃ m, mw = [FsOp.chmod (absPath s w.dest) m]) ∧
       (post = [] ∨ ∃ rest, post = FsOp.creat (absPath s w.dest) :: rest ∧
         ∀ op ∈ rest, (∃ b, op = FsOp.write (absPath s w.dest) b) ∨ ∃ m, op = FsOp.chmod (absPath s w.dest) m) ∧
-      (w.backup = true → s.backedUp.contains (backupName o w.dest) = false → bk = [] → post = []) ∧
+      (w.backup = true → s.backedUp.contains (backupName o w.dest) = false → bk = [] → mw = [] ∧ post = []) ∧
       (w.backup = false ∨ s.backedUp.contains (backupName o w.dest) = true → bk = []) ∧
       (r = .ok () → post ≠ []) :=
   writeNow_backup_first o w.dest w.perm w.backup w.content w.newMode
@@ -447,17 +448,19 @@ theorem finalize_backup_first (o : Options) (w : DeferredWrite) (s s' : DState) 
     (ensureParentDirs_trExt (fun d => ⟨d, rfl⟩) w.dest) s s' r h
 
 /-- the same for the immediate write of `write_patched_result_to_file` (anything but a git patch, or a git deletion): the backup
-    is made by `writePatchedResult` itself, after `make_writable` and before the file is re-created -/
+    is made by `writePatchedResult` itself, before `make_writable` and before the file is re-created
+    (CHANGED as `writeNow_backup_first`) -/
 theorem direct_write_backup_first (o : Options) (p : Patch) (out : Bytes) (perm : PermResult) (sb : Bool) (content : Bytes)
     (hc : (p.format == .git && p.operation != .delete) = false) (s s' : DState) (r : Except Exn Unit)
     (h : (writePatchedResult o p out perm sb content).run s = (r, s')) :
-    ∃ pre bk post, s'.trace = s.trace ++ pre ++ bk ++ post ∧
-      (∀ op ∈ pre, (∃ d, op = FsOp.mkdir d) ∨ ∃ m, op = FsOp.chmod (absPath s out) m) ∧
+    ∃ pre bk mw post, s'.trace = s.trace ++ pre ++ bk ++ mw ++ post ∧
+      (∀ op ∈ pre, ∃ d, op = FsOp.mkdir d) ∧
       (bk = [] ∨ bk = [FsOp.rename (absPath s out) (absPath s (backupName o out))] ∨
         bk = [FsOp.creat (absPath s (backupName o out))]) ∧
+      (mw = [] ∨ ∃ m, mw = [FsOp.chmod (absPath s out) m]) ∧
       (post = [] ∨ ∃ rest, post = FsOp.creat (absPath s out) :: rest ∧
         ∀ op ∈ rest, (∃ b, op = FsOp.write (absPath s out) b) ∨ ∃ m, op = FsOp.chmod (absPath s out) m) ∧
-      (sb = true → s.backedUp.contains (backupName o out) = false → bk = [] → post = []) ∧
+      (sb = true → s.backedUp.contains (backupName o out) = false → bk = [] → mw = [] ∧ post = []) ∧
       (sb = false ∨ s.backedUp.contains (backupName o out) = true → bk = []) ∧
       (r = .ok () → post ≠ []) := by
   rw [writePatchedResult_direct o p out perm sb content hc] at h
